@@ -35,8 +35,23 @@ class StatusTableV:
         for code, (cat, _d) in table.items():
             self.by_cat.setdefault(cat, []).append(code)
 
+    @staticmethod
+    def in_codes(k, codes):
+        """k is one of `codes`, as a disjunction over the maximal runs of consecutive codes"""
+        cs = sorted(set(codes))
+        if not cs:
+            return z3.BoolVal(False)
+        runs, lo, prev = [], cs[0], cs[0]
+        for c in cs[1:]:
+            if c != prev + 1:
+                runs.append((lo, prev))
+                lo = c
+            prev = c
+        runs.append((lo, prev))
+        return z3.Or(*[(k == a) if a == b else z3.And(k >= a, k <= b) for a, b in runs])
+
     def listed(self, k):
-        return z3.Or(*[k == c for c in self.table]) if self.table else z3.BoolVal(False)
+        return self.in_codes(k, self.table)
 
     def sym_contains(self, I, k):
         if isinstance(k, int) and not isinstance(k, bool):
@@ -50,7 +65,7 @@ class StatusTableV:
             return self.table[k]
         ke = I._num(k, "int")
         for cat, codes in self.by_cat.items():
-            if I.branch(SV(z3.Or(*[ke == c for c in codes]), "bool"), "status category"):
+            if I.branch(SV(self.in_codes(ke, codes), "bool"), "status category"):
                 return (cat, "")
         raise PyRaise(ExcVal("KeyError", (k,)))
 
@@ -344,7 +359,11 @@ class ValidateStatusTask(Task):
         I.ob(f"{P}/returns-the-response-it-was-given", val is rsp)
         got = rsp.fields.get("_status")
         if k in (0, 1, 4):
-            I.ob(f"{P}/status-is-the-int-or-the-datasets-Status", _b(I.eq(got, st)))
+            # the Status element is a 16-bit unsigned value: an integer outside 0..65535 is not a status any response can
+            # carry (C20: it could not be encoded); it is answered with the invalid-status failure code
+            inr = z3.And(st.e >= 0, st.e <= 65535)
+            I.ob(f"{P}/status-is-the-int-or-the-datasets-Status", z3.Implies(inr, _b(I.eq(got, st))))
+            I.ob(f"{P}/an-integer-outside-0..65535-gives-0xC002", z3.Implies(z3.Not(inr), _b(I.eq(got, 0xC002))))
         elif k == 2:
             I.ob(f"{P}/dataset-without-Status-gives-0xC001", got == 0xC001, detail=repr(got))
         else:
@@ -394,6 +413,7 @@ class FindLoop(LoopSpec):
 
 class FindScpTask(Task):
     name = "ServiceClass._c_find_scp"
+    shard = True
     functions = [FIND, VALID]
 
     def __init__(self, prefix="C20/"):
@@ -628,6 +648,8 @@ def bulk_frame_ok(I, node, fr):
 
 
 class GetMoveScpTask(Task):
+    shard = True
+
     def __init__(self, which, prefix="C22/"):
         self.which = which
         self.fn = GET if which == "get" else MOVE
@@ -821,3 +843,211 @@ class GetMoveScpTask(Task):
         self.path_done(I, "ended")
         hs = [e for e in I.trace if e.name == "handler"]
         I.ob(f"{P}/the-handler-is-invoked-exactly-once-with-the-request", len(hs) == 1)
+
+
+# ---------------------------------------------------------------------------------------------
+# single-response SCPs: the six DIMSE-N implementations, Verification, Storage   (C20, C21)
+# ---------------------------------------------------------------------------------------------
+class AnyStatusTable:
+    """`self.statuses` of an arbitrary service class: whether a code is listed is unknown (one Boolean per code expression),
+    its category is any of the five (fork) - so the contract holds for every status table of every service class"""
+    CATS = ("Success", "Warning", "Failure", "Cancel", "Pending")
+
+    def __init__(self):
+        self.known = {}
+
+    def sym_contains(self, I, k):
+        key = str(k.e) if isinstance(k, SV) else repr(k)
+        if key not in self.known:
+            self.known[key] = I.fresh("bool", "status_is_listed").e
+        return self.known[key]
+
+    def sym_index(self, I, k):
+        # C28 proves, for every *_STATUS table, that the category of each listed code is the PS3.7 category of the code
+        # (obligations C28/tables/<name>/category-equals-spec): a listed code has that category, whatever the table
+        if isinstance(k, int) and not isinstance(k, bool):
+            cat = ST.category(k)
+            if cat == ST.UNKNOWN:
+                I.assume(False)
+            I.ghost["status_category"] = cat
+            return (cat, "")
+        ke = I._num(k, "int")
+        for cat in self.CATS:
+            if I.branch(SV(ST.category_is_z3(ke, cat), "bool"), "category of the listed status"):
+                I.ghost["status_category"] = cat
+                return (cat, "")
+        I.assume(False)
+
+
+SINGLE = {
+    # name: (qualname, request class, event, handler returns a pair?, code for a handler exception, reply-data attribute)
+    "n_action": (f"{SC}:ServiceClass._n_action_scp", "N_ACTION", "EVT_N_ACTION", True, 0x0110, "ActionReply"),
+    "n_create": (f"{SC}:ServiceClass._n_create_scp", "N_CREATE", "EVT_N_CREATE", True, 0x0110, "AttributeList"),
+    "n_delete": (f"{SC}:ServiceClass._n_delete_scp", "N_DELETE", "EVT_N_DELETE", False, 0x0110, None),
+    "n_event_report": (f"{SC}:ServiceClass._n_event_report_scp", "N_EVENT_REPORT", "EVT_N_EVENT_REPORT", True, 0x0110, "EventReply"),
+    "n_get": (f"{SC}:ServiceClass._n_get_scp", "N_GET", "EVT_N_GET", True, 0x0110, "AttributeList"),
+    "n_set": (f"{SC}:ServiceClass._n_set_scp", "N_SET", "EVT_N_SET", True, 0x0110, "AttributeList"),
+    "c_store": (f"{SC}:StorageServiceClass.SCP", "C_STORE", "EVT_C_STORE", False, 0xC211, None),
+    "c_echo": (f"{SC}:VerificationServiceClass.SCP", "C_ECHO", "EVT_C_ECHO", False, 0x0000, None),
+}
+REPLY_KINDS = ["None", "dataset-encodable", "dataset-unencodable", "empty-dataset", "not-a-dataset"]
+
+
+class SingleScpTask(Task):
+    """an SCP that answers with exactly one response: adversarial handler (raises | returns any value)"""
+    shard = True
+
+    def __init__(self, which):
+        self.which = which
+        self.fn, self.req_cls, self.event, self.pair, self.exc_status, self.reply_attr = SINGLE[which]
+        self.name = self.fn.split(":")[1]
+        self.functions = [self.fn, VALID, f"{SC}:attempt.__enter__", f"{SC}:attempt.__exit__"]
+
+    def config(self, repo):
+        c = svc_config("C20/")
+        task = self
+
+        def trigger(I, args, kw):
+            g = I.ghost
+            I.trace.append(Ev("handler", (args[1].fields.get("name"), args[2])))
+            if I.choose(2, "handler returns or raises") == 1:
+                g["handler"] = "raised"
+                raise PyRaise(ExcVal("Exception", ("handler failed",)))
+            g["handler"] = "returned"
+            sk = I.choose(len(STATUS_KINDS), "status kind")
+            st = I.input("int", "handler_status")
+            g["handler_status"], g["status_kind"] = st, sk
+            status = handler_status_value(I, sk, st)
+            if not task.pair:
+                g["shape"] = "status"
+                return status
+            shape = I.choose(4, "shape of the handler's return value")
+            g["shape"] = ["pair", "None", "bare-status", "3-tuple"][shape]
+            if shape == 1:
+                return None
+            if shape == 2:
+                return status
+            if shape == 3:
+                return (status, None, None)
+            dk = I.choose(len(REPLY_KINDS), "reply dataset kind")
+            g["reply_kind"] = dk
+            ds = [None, DatasetV([("PatientName", "x"), ("AffectedSOPInstanceUID", "1.2.3")]), DatasetV([("PatientID", "y")]), DatasetV([]),
+                  "not a dataset"][dk]
+            g["reply"] = ds
+            return (status, ds)
+        c.summaries["pynetdicom.events:trigger"] = trigger
+
+        def enc(I, args, kw):
+            I.trace.append(Ev("encode", tuple(args)))
+            d = args[0]
+            if d is I.ghost.get("reply") and I.ghost.get("reply_kind") == 1:
+                lb = ghost_bytes(I, "encoded_reply", 1)[2]
+                I.ghost["encoded_lb"] = lb
+                return lb
+            return None
+        c.summaries["pynetdicom.dsutils:encode"] = enc
+        base_bio = c.ext_models["io.BytesIO"]
+
+        def bio(I, a, k):
+            e = base_bio(I, a, k)
+            if a and a[0] is I.ghost.get("encoded_lb"):
+                e.data["source"] = I.ghost.get("reply")
+            return e
+        c.ext_models["io.BytesIO"] = bio
+        c.ext_models["os.unlink"] = lambda I, a, k: None
+        return c
+
+    def body(self, I):
+        g = I.ghost
+        P = f"C20/{self.fn}"
+        Q = f"C21/{self.fn}"
+        cls = {"c_store": "StorageServiceClass", "c_echo": "VerificationServiceClass"}.get(self.which, "ServiceClass")
+        me = mk_svc(I, cls)
+        if self.which != "c_echo":
+            me.attrs["statuses"] = AnyStatusTable()
+        else:
+            me.attrs["statuses"] = StatusTableV(I.module_ns(I.repo.module("pynetdicom.status"))["VERIFICATION_SERVICE_CLASS_STATUS"])
+        req, mid = mk_request(I, self.req_cls)
+        has_inst = I.choose(2, "request has an Affected/Requested SOP Instance UID") == 0
+        inst = UIDv(I.input("int", "sop_instance").e) if has_inst else None
+        req.fields.update(_requested_sop_class_uid=req.fields["_affected_sop_class_uid"], _requested_sop_instance_uid=inst,
+                          _affected_sop_instance_uid=inst, _action_type_id=I.input("int", "action_type"),
+                          _event_type_id=I.input("int", "event_type"))
+        for nm in ("action_type", "event_type"):
+            I.assume(z3.And(I.inputs[nm] >= 0, I.inputs[nm] <= 65535))
+        cx, cid = mk_context(I)
+        g["mid"], g["cid"] = mid, cid
+        kind, val = I.run_function(I.repo.func(self.fn), [me, req, cx])
+        T = f"[handler-returns-{g.get('shape')}-instead-of-a-(status,dataset)-pair]" if g.get("shape") in ("None", "bare-status", "3-tuple") else ""
+        if kind == "raise":
+            I.ob(f"{P}/no-exception-escapes-the-SCP-(it-would-end-in-an-abort-without-a-final-response){T}", False, detail=f"{val!r}")
+            return
+        I.ob(f"{P}/no-exception-escapes-the-SCP-(it-would-end-in-an-abort-without-a-final-response){T}", True)
+        sends = [e for e in I.trace if e.name == "send_msg"]
+        hs = [e for e in I.trace if e.name == "handler"]
+        I.ob(f"{P}/the-handler-is-invoked-exactly-once-with-the-request", len(hs) == 1 and hs[0].args[0] == self.event)
+        I.ob(f"{P}/at-most-one-response{T}", len(sends) <= 1, detail=f"{len(sends)} responses")
+        if not sends:
+            I.ob(f"{P}/the-response-may-be-missing-only-if-the-association-is-no-longer-established{T}", not_established_seen(I))
+            return
+        snap, sent_cx = sends[0].args
+        st = snap.get("_status")
+        I.ob(f"{P}/every-response-has-a-status{T}", st is not None)
+        if st is None:
+            return
+        s = I._num(st, "int")
+        I.ob(f"{P}/every-response-status-is-encodable-(0..65535){T}", z3.And(s >= 0, s <= 65535))
+        I.ob(f"{P}/every-response-carries-the-requests-message-id-and-context{T}",
+             z3.And(_b(I.eq(snap.get("_message_id_being_responded_to"), mid)), _b(I.eq(sent_cx, cid))))
+        # ---- C21: which status / data goes out for which handler value
+        if g.get("handler") == "raised":
+            I.ob(f"{Q}/a-handler-exception-gives-the-documented-status-0x{self.exc_status:04X}", s == self.exc_status)
+            return
+        sk = g.get("status_kind")
+        hsv = g["handler_status"].e
+        inr = z3.And(hsv >= 0, hsv <= 65535)
+        shape = g.get("shape")
+        if shape not in ("pair", "status"):
+            return          # a malformed return value: C20 requires a response; which failure code it carries is not documented
+        if self.which == "c_echo":
+            # documented: anything that is not an int / a dataset with Status gives the default Success
+            if sk in (0, 1, 4):
+                I.ob(f"{Q}/response-status-is-the-handlers-status-(Success-when-it-is-not-a-16-bit-value)", z3.If(inr, s == hsv, s == 0))
+            else:
+                I.ob(f"{Q}/an-invalid-status-value-gives-the-default-Success", s == 0)
+            return
+        enc_calls = [e for e in I.trace if e.name == "encode"]
+        rk = g.get("reply_kind")
+        unenc = bool(enc_calls) and rk != 1
+        if sk in (0, 1, 4):
+            if unenc:
+                I.ob(f"{Q}/an-unencodable-reply-dataset-gives-0x0110", z3.Implies(inr, s == 0x0110))
+            elif self.which == "n_create" and not has_inst and rk != 1:
+                # N-CREATE without an instance UID in the request and none supplied in the handler's dataset: a Success status
+                # (listed in the service's table) is replaced by the documented failure 0x0110; everything else passes through
+                unlisted = z3.Or(*[z3.Not(v) for v in me.attrs["statuses"].known.values()]) if me.attrs["statuses"].known else z3.BoolVal(False)
+                I.ob(f"{Q}/response-status-is-the-handlers-status-(0x0110-when-a-successful-N-CREATE-names-no-SOP-instance)",
+                     z3.Implies(inr, z3.If(hsv == 0, z3.Or(s == 0x0110, z3.And(s == 0, unlisted)), s == hsv)))
+            else:
+                I.ob(f"{Q}/response-status-is-the-handlers-status", z3.Implies(inr, s == hsv))
+            I.ob(f"{Q}/an-integer-outside-0..65535-gives-0xC002", z3.Implies(z3.Not(inr), s == 0xC002))
+        elif sk == 2:
+            I.ob(f"{Q}/dataset-without-Status-gives-0xC001", s == 0xC001)
+        else:
+            I.ob(f"{Q}/invalid-status-type-gives-0xC002", s == 0xC002)
+        # the data that goes out is the handler's dataset object, encoded with the context's transfer syntax
+        if self.reply_attr:
+            data = snap.get("_dataset")
+            if isinstance(data, Env) and data.kind == "BytesIO":
+                I.ob(f"{Q}/reply-data-is-the-handlers-dataset-encoded-with-the-contexts-transfer-syntax",
+                     data.data.get("source") is g.get("reply") and len(enc_calls) == 1 and enc_calls[0].args[0] is g.get("reply")
+                     and self._flags_of_context(I, enc_calls[0], cx))
+            for e in enc_calls:
+                I.ob(f"{Q}/only-the-handlers-dataset-is-encoded", e.args[0] is g.get("reply"))
+
+    @staticmethod
+    def _flags_of_context(I, ev, cx):
+        ts = cx.fields["_transfer_syntax"][0]
+        flags = ev.args[1:4]
+        want = [I.getattr(ts, n) for n in ("is_implicit_VR", "is_little_endian", "is_deflated")]
+        return len(flags) == 3 and all(isinstance(f, SV) and isinstance(w, SV) and f.e.eq(w.e) for f, w in zip(flags, want))
